@@ -265,8 +265,8 @@ type c04gen struct {
 	cmp  func(a, b int) int
 	keys map[int][]int // state id -> stored keys in comparator order
 	zero map[int]bool
-	ids  map[int]int // map register -> state id
-	its  map[int]int // iterator register -> state id
+	ids  map[int]int  // map register -> state id
+	its  map[int]int  // iterator register -> state id
 	old  map[int]bool // iterator register is stale
 	next int
 	nv   int
